@@ -1,5 +1,6 @@
 import AvroModel
 import AvroProofs.Lemmas.Datum
+import AvroProofs.Lemmas.RecordOrder
 /-!
 # C16 — the serde path
 
@@ -8,8 +9,13 @@ Theorems about the model of the schema-aware serializer (`serS`) for the fragmen
 * `direct_layout` / `buffered_layout`: for EVERY target block size an array or map is written as a
   legal sequence of blocks that carries exactly the items' encodings, in order, followed by the end
   marker - the partition into blocks is the only thing the setting changes.
-That the bytes decode (generic decoder, schema-aware deserializer) to the value, and that the
-generic route produces the same datum, is decided by the correspondence run and the oracle.
+* `record_in_schema_order`: whatever order a `Serialize` impl hands a struct's fields over in (serde's derive does so
+  in declaration order, a map-style impl in any order), whichever it skips and whichever it never mentions, the bytes
+  written are the fields' bytes in SCHEMA order, each being the bytes of the value given under that field's name or alias,
+  or of the field's default - the out-of-order cache never drops, duplicates or misplaces a field.
+`AvroProofs/C16Datum.lean` builds on these: the bytes are a specification-legal datum (`ser_is_spec_datum`) that the
+generic decoder reads back as exactly one datum (`ser_decodes_as_one_datum`).  That the value read back is the one the
+Rust value converts to, and the schema-aware deserializer, are decided by the correspondence run and the oracle.
 -/
 namespace Avro.C16
 open Avro
@@ -412,5 +418,43 @@ theorem buffered_layout (ser : SerdeVal → SerOut) (keyed : Bool) (serKey : Ser
             refine ⟨parts, hne, by simp [hfl, List.append_assoc], ?_⟩
             rw [hflat, hlen]
             exact hrun
+
+/-! ### the record serializer's out-of-order cache -/
+
+/-- **record fields come out in schema order**: when serializing a struct against a record schema succeeds, the bytes
+are the concatenation, over the schema's fields in schema order, of `specField … i`: the bytes of the value handed
+over under a key that resolves to field `i` (its default when that value was skipped), or of the field's default
+when the type never handed the field over.  For every order of the fields, every set of skipped or missing fields,
+every schema, block size and recursion budget. -/
+theorem record_in_schema_order (tbs : Option Nat) (env : Names) (fuel : Nat) (s0 : Schema) (rn : Bytes)
+    (rfields : List (FieldMeta × Schema)) (name : Bytes) (given : List (Bytes × Option SerdeVal)) (b : Bytes) (k : Nat)
+    (hs : derefS env s0 = some (.record rn rfields))
+    (hok : serS tbs env (fuel + 1) s0 (.struct name given) = .ok (b, k)) :
+    ∃ bs : List Bytes, bs.length = rfields.length ∧ b = bs.flatten ∧
+      ∀ i x, bs[i]? = some x → ∃ n, specField env (serS tbs env fuel) rfields given i = .ok (x, n) := by
+  simp only [serS, hs] at hok
+  cases h1 : recordFields env (serS tbs env fuel) rfields given {} with
+  | error e => rw [h1] at hok; simp at hok
+  | ok st =>
+    rw [h1] at hok
+    simp only at hok
+    cases h2 : recordEnd env (serS tbs env fuel) rfields (rfields.length + 1) st with
+    | error e => rw [h2] at hok; simp at hok
+    | ok st' =>
+      rw [h2] at hok
+      simp only [Except.ok.injEq, Prod.mk.injEq] at hok
+      have hinit : RInv (specField env (serS tbs env fuel) rfields given) rfields.length true ({} : RecSt) :=
+        ⟨by intro e he; simp at he, by intro e he; simp at he, ⟨[], rfl, by intro i x hx; simp at hx, rfl⟩⟩
+      obtain ⟨i1, i2⟩ := recordFields_inv env (serS tbs env fuel) rfields given given [] {} st (by simp) hinit
+        (by intro kv hkv; simp at hkv) h1
+      obtain ⟨j1, j2⟩ := recordEnd_inv env (serS tbs env fuel) rfields given _ st st' i1 i2 h2
+      obtain ⟨bs, hl, hsp, hout⟩ := j1.outSpec
+      exact ⟨bs, by rw [hl, j2], by rw [← hok.1, hout], hsp⟩
+
+/-- non-vacuity: `record R {a: int, b: string = "x", c: long}` handed `c`, then `a` (and never `b`): the bytes are
+`a`'s, the default of `b`, then `c`'s -/
+example : serS none [] 5
+    (.record [82] [({ name := [97] }, .int), ({ name := [98], default := some (.str [120]) }, .string), ({ name := [99] }, .long)])
+    (.struct [82] [([99], some (.i64 (-1))), ([97], some (.i32 3))]) = .ok ([6, 2, 120, 1], 4) := by rfl
 
 end Avro.C16
